@@ -396,4 +396,360 @@ Section AcSeg.
     - rewrite V2. cbn [oval]. rewrite V1. reflexivity.
     - intros x Hx. rewrite F2 by lia. rewrite F1 by lia. reflexivity.
   Qed.
+
+  (* the two shapes of the rewritten tail *)
+  Variable Xi : list inst.
+  Hypothesis HX : (P = Q /\ Xi = [j]) \/ Xi = Xmerged.
+
+  Lemma assert_tail c : cenv_ok c -> is_lab P = false -> is_lab Q = false ->
+    c ta = w_iszero (oval lv c P) -> c tb = w_iszero (oval lv c Q) ->
+    (c ta <> 0 -> c tb <> 0 -> exists c', seg_exec lv env Xi c c' /\ agree nv c c') /\
+    (c ta = 0 \/ c tb = 0 -> seg_fin lv env Xi c ORevert0).
+  Proof.
+    intros Hc LP LQ Va Vb.
+    pose proof (oval_word lv c P LV Hc) as WP. pose proof (oval_word lv c Q LV Hc) as WQ.
+    destruct HX as [[EPQ ->] | ->].
+    - rewrite <- EPQ in Vb. split.
+      + intros _ Nb. exists c. split; [|apply agree_refl].
+        econstructor; [apply istep_assert; cbn [oval]; exact Nb | constructor].
+      + intros Z. apply sf_here. unfold j. rewrite final_of_assert. cbn [oval].
+        assert (c tb = 0) as -> by (destruct Z as [Z|Z]; [rewrite Vb, <- Va; exact Z | exact Z]). reflexivity.
+    - destruct (merged_exec c Hc LP LQ) as [c1 [c2 [I1 [I2 [V2 [A2 O2]]]]]].
+      unfold Xmerged. cbn [merged_tail map fst]. split.
+      + intros Na Nb. rewrite Va in Na. rewrite Vb in Nb. apply w_iszero_nz_iff in Na, Nb.
+        exists c2. split; [|exact A2].
+        econstructor; [exact I1|]. econstructor; [exact I2|]. econstructor; [|constructor].
+        apply istep_assert. cbn [oval]. rewrite V2, Na, Nb. discriminate.
+      + intros Z. eapply sf_later; [exact I1|]. eapply sf_later; [exact I2|]. apply sf_here.
+        rewrite final_of_assert. cbn [oval]. rewrite V2.
+        assert (NZ : w_or (oval lv c Q) (oval lv c P) <> 0).
+        { intros E. apply (w_or_zero _ _ (proj1 WQ) (proj1 WP)) in E as [EQ EP].
+          destruct Z as [Z|Z]; [rewrite Va, EP in Z | rewrite Vb, EQ in Z]; discriminate Z. }
+        unfold w_iszero. apply Z.eqb_neq in NZ. rewrite NZ. reflexivity.
+  Qed.
+
+  (* inversion: what a run / a failure of the rewritten tail tells about the two flags *)
+  Lemma assert_tail_inv c : cenv_ok c -> is_lab P = false -> is_lab Q = false ->
+    c ta = w_iszero (oval lv c P) -> c tb = w_iszero (oval lv c Q) ->
+    (forall c', seg_exec lv env Xi c c' -> c ta <> 0 /\ c tb <> 0 /\ agree nv c c') /\
+    (forall o, seg_fin lv env Xi c o -> o = ORevert0 /\ (c ta = 0 \/ c tb = 0)).
+  Proof.
+    intros Hc LP LQ Va Vb.
+    pose proof (oval_word lv c P LV Hc) as WP. pose proof (oval_word lv c Q LV Hc) as WQ.
+    destruct HX as [[EPQ ->] | ->].
+    - rewrite <- EPQ in Vb. split.
+      + intros c' X. inversion X as [|? ? ? c1 ? I R]; subst. inversion R; subst.
+        destruct (istep_assert_inv lv env (OVar tb) c LTau c' I) as [Nz [_ Fr]]. cbn [oval] in Nz.
+        split; [rewrite Va, <- Vb; exact Nz | split; [exact Nz | intros x _; symmetry; apply Fr]].
+      + intros o X. inversion X as [? ? ? ? F | ? ? ? c1 ? I R]; subst; [|inversion R].
+        unfold j in F. rewrite final_of_assert in F. cbn [oval] in F.
+        destruct (c tb =? 0) eqn:E; [|discriminate]. apply Z.eqb_eq in E. injection F as <-. split; [reflexivity | right; exact E].
+    - unfold Xmerged. cbn [merged_tail map fst].
+      assert (PF1 : forall c0, final_of lv (mkI "or" [P; Q] [nv]) c0 = None) by (intros; reflexivity).
+      assert (PF2 : forall c0, final_of lv (mkI "iszero" [OVar nv] [N.succ nv]) c0 = None) by (intros; reflexivity).
+      split.
+      + intros c' X. inversion X as [|? ? ? c1 ? I1 R1]; subst. inversion R1 as [|? ? ? c2 ? I2 R2]; subst.
+        inversion R2 as [|? ? ? c3 ? I3 R3]; subst. inversion R3; subst.
+        assert (X2 : seg_exec lv env (firstn 2 Xmerged) c c2).
+        { unfold Xmerged. cbn [merged_tail map fst firstn]. econstructor; [exact I1|]. econstructor; [exact I2 | constructor]. }
+        destruct (merged_inv c c2 LP LQ X2) as [V2 A2].
+        destruct (istep_assert_inv lv env _ c2 LTau c' I3) as [Nz [_ Fr]]. cbn [oval] in Nz. rewrite V2 in Nz.
+        apply w_iszero_nz_iff in Nz. apply (w_or_zero _ _ (proj1 WQ) (proj1 WP)) in Nz as [EQ EP].
+        split; [rewrite Va, EP; discriminate | split; [rewrite Vb, EQ; discriminate|]].
+        intros x Hx. rewrite Fr. apply A2. exact Hx.
+      + intros o X. inversion X as [? ? ? ? F | ? ? ? c1 ? I1 R1]; subst; [rewrite PF1 in F; discriminate|].
+        inversion R1 as [? ? ? ? F | ? ? ? c2 ? I2 R2]; subst; [rewrite PF2 in F; discriminate|].
+        inversion R2 as [? ? ? ? F | ? ? ? c3 ? I3 R3]; subst; [|inversion R3].
+        assert (X2 : seg_exec lv env (firstn 2 Xmerged) c c2).
+        { unfold Xmerged. cbn [merged_tail map fst firstn]. econstructor; [exact I1|]. econstructor; [exact I2 | constructor]. }
+        destruct (merged_inv c c2 LP LQ X2) as [V2 A2].
+        rewrite final_of_assert in F. cbn [oval] in F. rewrite V2 in F.
+        destruct (w_iszero (w_or (oval lv c Q) (oval lv c P)) =? 0) eqn:E; [|discriminate]. injection F as <-.
+        split; [reflexivity|]. apply Z.eqb_eq in E.
+        destruct (Z.eq_dec (c ta) 0) as [Za|Na]; [left; exact Za|]. right.
+        rewrite Va in Na. apply w_iszero_nz_iff in Na. rewrite Vb.
+        destruct (Z.eq_dec (oval lv c Q) 0) as [ZQ|NQ]; [rewrite Na, ZQ in E; discriminate E|].
+        unfold w_iszero. apply Z.eqb_neq in NQ. rewrite NQ. reflexivity.
+  Qed.
+
+  Lemma agree_trans c1 c2 c3 : agree nv c1 c2 -> agree nv c2 c3 -> agree nv c1 c3.
+  Proof. intros A B x Hx. rewrite (A x Hx). apply B. exact Hx. Qed.
+
+  Lemma a_final c : final_of lv a c = if c ta =? 0 then Some ORevert0 else None.
+  Proof. reflexivity. Qed.
+
+  (* original -> rewritten *)
+  Lemma P1_fwd c c' cn : agree nv c cn -> cenv_ok c -> cenv_ok cn -> Jseg c -> Jseg cn ->
+    seg_exec lv env (a :: Sx ++ [j]) c c' -> exists cn', seg_exec lv env (Sx ++ Xi) cn cn' /\ agree nv c' cn'.
+  Proof.
+    intros A O On Jc Jn X. inversion X as [|? ? ? c1 ? Ia R]; subst.
+    destruct (istep_assert_inv lv env (OVar ta) c LTau c1 Ia) as [Na [_ Fa1]]. cbn [oval] in Na.
+    destruct (seg_exec_app_inv lv env Sx [j] c1 c' R) as [c2 [XS Xj]].
+    inversion Xj as [|? ? ? c3 ? Ij R3]; subst. inversion R3; subst.
+    destruct (istep_assert_inv lv env (OVar tb) c2 LTau c' Ij) as [Nb [_ Fb3]]. cbn [oval] in Nb.
+    assert (A1 : agree nv c1 cn) by (intros x Hx; rewrite Fa1; apply A; exact Hx).
+    destruct (seg_exec_agree nv lv env Sx BS c1 c2 cn A1 XS) as [c2n [XSn A2]].
+    destruct (after_S cn c2n Jn XSn) as [LP [LQ [Va [Vb Kt]]]].
+    pose proof (seg_exec_ok lv env Sx cn c2n On XSn) as O2n.
+    destruct (assert_tail c2n O2n LP LQ Va Vb) as [T1 _].
+    destruct T1 as [cz [XX AX]].
+    - rewrite Kt. rewrite <- (A ta Bta). exact Na.
+    - rewrite <- (A2 tb Btb). exact Nb.
+    - exists cz. split; [eapply seg_exec_app; eassumption|].
+      intros x Hx. rewrite Fb3. rewrite (A2 x Hx). apply AX. exact Hx.
+  Qed.
+
+  Lemma P2_fwd c cn o : agree nv c cn -> cenv_ok c -> cenv_ok cn -> Jseg c -> Jseg cn ->
+    seg_fin lv env (a :: Sx ++ [j]) c o -> seg_fin lv env (Sx ++ Xi) cn o.
+  Proof.
+    intros A O On Jc Jn X. inversion X as [? ? ? ? F | ? ? ? c1 ? Ia R]; subst.
+    - rewrite a_final in F. destruct (c ta =? 0) eqn:E; [|discriminate]. apply Z.eqb_eq in E. injection F as <-.
+      destruct (safe_exec_progress lv env Sx LV EV Sx_safe cn On) as [c2n XSn].
+      destruct (after_S cn c2n Jn XSn) as [LP [LQ [Va [Vb Kt]]]].
+      pose proof (seg_exec_ok lv env Sx cn c2n On XSn) as O2n.
+      destruct (assert_tail c2n O2n LP LQ Va Vb) as [_ T2].
+      eapply seg_exec_fin; [exact XSn|]. apply T2. left. rewrite Kt, <- (A ta Bta). exact E.
+    - destruct (istep_assert_inv lv env (OVar ta) c LTau c1 Ia) as [Na [_ Fa1]].
+      destruct (seg_fin_app_inv lv env Sx [j] c1 o R) as [L | [c2 [XS Fj]]]; [destruct (safe_no_fin lv env Sx Sx_safe _ _ L)|].
+      inversion Fj as [? ? ? ? F | ? ? ? c3 ? Ij R3]; subst; [|inversion R3].
+      unfold j in F. rewrite final_of_assert in F. cbn [oval] in F. destruct (c2 tb =? 0) eqn:E; [|discriminate].
+      apply Z.eqb_eq in E. injection F as <-.
+      assert (A1 : agree nv c1 cn) by (intros x Hx; rewrite Fa1; apply A; exact Hx).
+      destruct (seg_exec_agree nv lv env Sx BS c1 c2 cn A1 XS) as [c2n [XSn A2]].
+      destruct (after_S cn c2n Jn XSn) as [LP [LQ [Va [Vb Kt]]]].
+      pose proof (seg_exec_ok lv env Sx cn c2n On XSn) as O2n.
+      destruct (assert_tail c2n O2n LP LQ Va Vb) as [_ T2].
+      eapply seg_exec_fin; [exact XSn|]. apply T2. right. rewrite <- (A2 tb Btb). exact E.
+  Qed.
+
+  (* rewritten -> original *)
+  Lemma P1_bwd x x' y : agree nv x y -> cenv_ok x -> cenv_ok y -> Jseg x -> Jseg y ->
+    seg_exec lv env (Sx ++ Xi) x x' -> exists y', seg_exec lv env (a :: Sx ++ [j]) y y' /\ agree nv x' y'.
+  Proof.
+    intros A Ox Oy Jx Jy X. destruct (seg_exec_app_inv lv env Sx Xi x x' X) as [x2 [XS XX]].
+    destruct (after_S x x2 Jx XS) as [LP [LQ [Va [Vb Kt]]]].
+    pose proof (seg_exec_ok lv env Sx x x2 Ox XS) as O2.
+    destruct (assert_tail_inv x2 O2 LP LQ Va Vb) as [T1 _]. destruct (T1 x' XX) as [Na [Nb AX]].
+    destruct (seg_exec_agree nv lv env Sx BS x x2 y A XS) as [y2 [YS A2]].
+    exists y2. split.
+    - econstructor; [apply istep_assert; cbn [oval]; rewrite <- (A ta Bta), <- Kt; exact Na|].
+      eapply seg_exec_app; [exact YS|]. econstructor; [|constructor].
+      apply istep_assert. cbn [oval]. rewrite <- (A2 tb Btb). exact Nb.
+    - intros z Hz. rewrite <- (AX z Hz). apply A2. exact Hz.
+  Qed.
+
+  Lemma P2_bwd x y o : agree nv x y -> cenv_ok x -> cenv_ok y -> Jseg x -> Jseg y ->
+    seg_fin lv env (Sx ++ Xi) x o -> seg_fin lv env (a :: Sx ++ [j]) y o.
+  Proof.
+    intros A Ox Oy Jx Jy X.
+    destruct (seg_fin_app_inv lv env Sx Xi x o X) as [L | [x2 [XS FX]]]; [destruct (safe_no_fin lv env Sx Sx_safe _ _ L)|].
+    destruct (after_S x x2 Jx XS) as [LP [LQ [Va [Vb Kt]]]].
+    pose proof (seg_exec_ok lv env Sx x x2 Ox XS) as O2.
+    destruct (assert_tail_inv x2 O2 LP LQ Va Vb) as [_ T2]. destruct (T2 o FX) as [-> Z].
+    destruct (Z.eq_dec (y ta) 0) as [Za|Na].
+    - apply sf_here. rewrite a_final. apply Z.eqb_eq in Za. rewrite Za. reflexivity.
+    - eapply sf_later; [apply istep_assert; cbn [oval]; exact Na|].
+      destruct (seg_exec_agree nv lv env Sx BS x x2 y A XS) as [y2 [YS A2]].
+      eapply seg_exec_fin; [exact YS|]. apply sf_here. unfold j. rewrite final_of_assert. cbn [oval].
+      destruct Z as [Z|Z]; [exfalso; apply Na; rewrite <- (A ta Bta), <- Kt; exact Z|].
+      rewrite <- (A2 tb Btb), Z. reflexivity.
+  Qed.
 End AcSeg.
+
+(* ------------------------------------------------------------------ Part 4: one step on a function, and the pass *)
+Lemma facts_step_phi_nil i : is_phi i = true -> facts_step [] i = [].
+Proof.
+  intros H. unfold facts_step. cbn [filter]. destruct (i_outs i) as [|o [|? ?]]; try reflexivity.
+  unfold is_phi in H. apply String.eqb_eq in H. rewrite H. reflexivity.
+Qed.
+
+(* splitting a block at a non-phi instruction: phis in front, then p, then the rest *)
+Lemma block_split l : exists phs p, l = (phs ++ p)%list /\ fold_left facts_step l [] = fold_left facts_step p [] /\
+  forall i r, is_phi i = false -> leading_phis (l ++ i :: r)%list = phs /\ body (l ++ i :: r)%list = (p ++ i :: r)%list.
+Proof.
+  induction l as [|x t IH].
+  - exists [], []. split; [reflexivity | split; [reflexivity|]]. intros i r Hi. cbn. rewrite Hi. split; reflexivity.
+  - destruct (is_phi x) eqn:Px.
+    + destruct IH as [phs [p [E [Ff Hs]]]]. exists (x :: phs), p. split; [rewrite E; reflexivity|]. split.
+      * cbn [fold_left]. rewrite (facts_step_phi_nil x Px). exact Ff.
+      * intros i r Hi. destruct (Hs i r Hi) as [A B]. cbn [app leading_phis body]. rewrite Px, A, B. split; reflexivity.
+    + exists [], (x :: t). split; [reflexivity | split; [reflexivity|]]. intros i r Hi. cbn [app leading_phis body]. rewrite Px.
+      split; reflexivity.
+Qed.
+
+Lemma facts_step_noouts F i : i_outs i = [] -> facts_step F i = F.
+Proof.
+  intros H. unfold facts_step. rewrite H. cbn [existsb negb]. induction F as [|x t IH]; cbn; [reflexivity | rewrite IH; reflexivity].
+Qed.
+
+Lemma beh_equiv_refl f : beh_equiv f f.
+Proof. intros lv env c0 _ _ _ t r. tauto. Qed.
+Lemma beh_equiv_trans f g h : beh_equiv f g -> beh_equiv g h -> beh_equiv f h.
+Proof. intros A B lv env c0 H1 H2 H3 t r. rewrite (A lv env c0 H1 H2 H3 t r). apply B; assumption. Qed.
+
+Definition set_block (b0 : nat) (blk : block) (f : func) : func := (firstn b0 f ++ blk :: skipn (Datatypes.S b0) f)%list.
+
+Lemma nth_set_block_same b0 blk f : (b0 < List.length f)%nat -> nth b0 (set_block b0 blk f) [] = blk.
+Proof.
+  intros H. unfold set_block. rewrite app_nth2 by (rewrite firstn_length; lia).
+  rewrite firstn_length. replace (b0 - Nat.min b0 (List.length f))%nat with 0%nat by lia. reflexivity.
+Qed.
+
+Lemma nth_set_block_other b0 blk f b : (b0 < List.length f)%nat -> b <> b0 -> nth b (set_block b0 blk f) [] = nth b f [].
+Proof.
+  intros Lt Ne. unfold set_block.
+  destruct (Nat.lt_ge_cases b b0) as [L1|G1].
+  - rewrite app_nth1 by (rewrite firstn_length; lia). rewrite <- (firstn_skipn b0 f) at 2.
+    rewrite app_nth1 by (rewrite firstn_length; lia). reflexivity.
+  - rewrite app_nth2 by (rewrite firstn_length; lia). rewrite firstn_length.
+    replace (Nat.min b0 (List.length f)) with b0 by lia.
+    destruct (b - b0)%nat as [|d] eqn:Ed; [lia|]. cbn [nth].
+    rewrite <- (firstn_skipn (Datatypes.S b0) f) at 2. rewrite app_nth2 by (rewrite firstn_length; lia).
+    rewrite firstn_length. f_equal. lia.
+Qed.
+
+Lemma ac_step_split nv : forall L L' k, ac_step nv L = Some (L', k) ->
+  exists b0 blkI blkI', nth_error L b0 = Some blkI /\ ac_find [] nv blkI = Some (blkI', k) /\
+    strip L' = set_block b0 (map fst blkI') (strip L).
+Proof.
+  induction L as [|blk t IH]; intros L' k H; cbn [ac_step] in H; [discriminate|].
+  destruct (ac_find [] nv blk) as [[blk' k']|] eqn:E.
+  - injection H as <- <-. exists 0%nat, blk, blk'. split; [reflexivity | split; [exact E | reflexivity]].
+  - destruct (ac_step nv t) as [[t' k']|] eqn:E2; [|discriminate]. injection H as <- <-.
+    destruct (IH _ _ eq_refl) as [b0 [bI [bI' [N1 [F1 S1]]]]].
+    exists (Datatypes.S b0), bI, bI'. split; [exact N1 | split; [exact F1|]].
+    unfold strip, set_block in *. cbn [map firstn skipn app]. f_equal. exact S1.
+Qed.
+
+Lemma nth_error_strip L : forall b0 blkI, nth_error L b0 = Some blkI ->
+  nth b0 (strip L) [] = map fst blkI /\ (b0 < List.length (strip L))%nat.
+Proof.
+  induction L as [|x t IH]; intros [|b0] blkI H; cbn in H; try discriminate.
+  - injection H as <-. split; [reflexivity | unfold strip; cbn [map List.length]; lia].
+  - destruct (IH b0 blkI H) as [A B]. split; [exact A | unfold strip in *; cbn [map List.length] in *; lia].
+Qed.
+
+Lemma inst_below_app nv l1 l2 : forallb (inst_below nv) (l1 ++ l2) = true ->
+  forallb (inst_below nv) l1 = true /\ forallb (inst_below nv) l2 = true.
+Proof. rewrite forallb_app. apply andb_prop. Qed.
+
+Section AcFunc.
+  Variable L : list (list itm).
+  Variable nv : N.
+  Variable L' : list (list itm).
+  Variable k : N.
+  Hypothesis FB : func_below nv (strip L) = true.
+  Hypothesis HS : ac_step nv L = Some (L', k).
+
+  Theorem ac_step_correct : beh_equiv (strip L) (strip L').
+  Proof.
+    destruct (ac_step_split nv L L' k HS) as [b0 [blkI [blkI' [N0 [F0 E']]]]].
+    destruct (nth_error_strip L b0 blkI N0) as [NB LB].
+    destruct (ac_find_split nv blkI [] blkI' k F0) as [preI [a [m [ta [P [l [l' [E1 [E2 [Ao [Aa [Au [Pa SC]]]]]]]]]]]]].
+    destruct (ac_scan_split P ta m nv l _ l' k SC) as [SxI [j [tb [Q [postI [X [E3 [E4 [Jo [Ja [Ju [HSx [Pb [Pa2 [BP [BQ HX]]]]]]]]]]]]]]]].
+    set (f := strip L) in *. set (f' := strip L') in *.
+    set (preB := map fst preI). set (Sx := map fst SxI). set (post := map fst postI). set (Xi := map fst X).
+    destruct a as [aop aargs aouts]. cbn [i_op i_args i_outs] in Ao, Aa, Au. subst aop aargs aouts.
+    destruct j as [jop jargs jouts]. cbn [i_op i_args i_outs] in Jo, Ja, Ju. subst jop jargs jouts.
+    set (a := mkI "assert" [OVar ta] []) in *. set (j := mkI "assert" [OVar tb] []) in *.
+    assert (EB : nth b0 f [] = (preB ++ a :: Sx ++ j :: post)%list).
+    { rewrite NB, E1, E3. unfold preB, Sx, post. rewrite map_app. cbn [map fst]. rewrite map_app. reflexivity. }
+    assert (EB' : nth b0 f' [] = (preB ++ Sx ++ Xi ++ post)%list).
+    { rewrite E'. rewrite nth_set_block_same by exact LB. rewrite E2, E4. unfold preB, Sx, post, Xi.
+      rewrite !map_app. reflexivity. }
+    assert (EO : forall b, b <> b0 -> nth b f' [] = nth b f []).
+    { intros b Ne. rewrite E'. apply nth_set_block_other; [exact LB | exact Ne]. }
+    (* facts at the first assertion *)
+    destruct (block_split preB) as [phs [p [Ep [Ff Hsplit]]]].
+    assert (Fa_eq : facts_step (fold_left facts_step preB []) a = fold_left facts_step p []).
+    { rewrite facts_step_noouts by reflexivity. exact Ff. }
+    fold preB in Pa. rewrite Ff in Pa. rewrite Fa_eq in Pb, Pa2.
+    set (Fa := fold_left facts_step p []) in *.
+    (* below *)
+    assert (BB : forallb (inst_below nv) (nth b0 f []) = true).
+    { pose proof (func_below_nth nv f (N.of_nat b0) FB) as H. unfold nth_block in H. rewrite Nat2N.id in H. exact H. }
+    rewrite EB in BB. destruct (inst_below_app nv _ _ BB) as [Bpre BB1]. cbn [forallb] in BB1.
+    apply andb_prop in BB1 as [Ba BB2]. destruct (inst_below_app nv _ _ BB2) as [BSx BB3]. cbn [forallb] in BB3.
+    apply andb_prop in BB3 as [Bj Bpost].
+    assert (Bta : (ta < nv)%N).
+    { unfold inst_below in Ba. cbn in Ba. rewrite andb_true_r in Ba. rewrite andb_true_r in Ba. apply N.ltb_lt. exact Ba. }
+    assert (Btb : (tb < nv)%N).
+    { unfold inst_below in Bj. cbn in Bj. rewrite andb_true_r in Bj. rewrite andb_true_r in Bj. apply N.ltb_lt. exact Bj. }
+    assert (Bp : forallb (inst_below nv) p = true).
+    { rewrite Ep in Bpre. apply (inst_below_app nv phs p Bpre). }
+    (* shape of the rewritten tail *)
+    assert (HXi : (P = Q /\ Xi = [j]) \/ Xi = Xmerged P Q nv m).
+    { destruct HX as [[EPQ [-> _]] | [_ [-> _]]]; [left; split; [exact EPQ | reflexivity] | right; reflexivity]. }
+    assert (Xne : exists x0 xr, Xi = x0 :: xr /\ is_phi x0 = false).
+    { destruct HXi as [[_ ->] | ->]; eexists; eexists; (split; [reflexivity | reflexivity]). }
+    assert (SxNP : forall i, In i Sx -> is_phi i = false).
+    { intros i Hi. unfold Sx in Hi. apply in_map_iff in Hi as [it [<- Hit]]. rewrite Forall_forall in HSx.
+      destruct (HSx it Hit) as [Sf _]. apply (safe_facts (fun _ => 0) (fst it) (fun _ => 0) Sf). }
+    (* bodies *)
+    destruct (Hsplit a (Sx ++ j :: post)%list eq_refl) as [PH1 BD1].
+    assert (H2 : exists h2 r2, (Sx ++ Xi ++ post)%list = h2 :: r2 /\ is_phi h2 = false).
+    { destruct Sx as [|s0 sr] eqn:ES.
+      - destruct Xne as [x0 [xr [-> Px]]]. eexists; eexists; split; [reflexivity | exact Px].
+      - eexists; eexists; split; [reflexivity | apply SxNP; left; reflexivity]. }
+    destruct H2 as [h2 [r2 [E2' Ph2]]].
+    destruct (Hsplit h2 r2 Ph2) as [PH2 BD2]. rewrite <- E2' in PH2, BD2.
+    assert (Hph : forall b, leading_phis (nth_block f' b) = leading_phis (nth_block f b)).
+    { intros b. unfold nth_block. destruct (Nat.eq_dec (N.to_nat b) b0) as [->|Ne]; [rewrite EB, EB', PH1, PH2; reflexivity | rewrite (EO _ Ne); reflexivity]. }
+    assert (Hbd : forall b, b <> N.of_nat b0 -> body (nth_block f' b) = body (nth_block f b)).
+    { intros b Ne. unfold nth_block. rewrite EO; [reflexivity|]. intros E. apply Ne. rewrite <- E. rewrite N2Nat.id. reflexivity. }
+    assert (Hb0 : body (nth_block f (N.of_nat b0)) = (p ++ (a :: Sx ++ [j]) ++ post)%list).
+    { unfold nth_block. rewrite Nat2N.id, EB, BD1. cbn [app]. rewrite <- app_assoc. reflexivity. }
+    assert (Hb0' : body (nth_block f' (N.of_nat b0)) = (p ++ (Sx ++ Xi) ++ post)%list).
+    { unfold nth_block. rewrite Nat2N.id, EB', BD2. rewrite <- app_assoc. reflexivity. }
+    assert (Hphb : forall b, forallb (inst_below nv) (leading_phis (nth_block f b)) = true).
+    { intros b. apply below_phis_body. apply func_below_nth. exact FB. }
+    assert (Hob : forall b, b <> N.of_nat b0 -> forallb (inst_below nv) (body (nth_block f b)) = true).
+    { intros b _. apply below_phis_body. apply func_below_nth. exact FB. }
+    intros lv env c0 LV EV C0 t r.
+    (* the invariant in front of the segment: the available definitions hold *)
+    set (J := fun (rr : list inst) (c : cenv) => exists pd, p = (pd ++ rr)%list /\ Forall (fact_holds lv c) (fold_left facts_step pd [])).
+    assert (J_init : forall c, cenv_ok c -> J p c).
+    { intros c _. exists []. split; [reflexivity | constructor]. }
+    assert (J_step : forall i rr c l0 c', J (i :: rr) c -> istep lv env i c l0 c' -> J rr c').
+    { intros i rr c l0 c' [pd [Epd Fh]] I. exists (pd ++ [i])%list. split; [rewrite <- app_assoc; exact Epd|].
+      rewrite fold_left_app. cbn [fold_left]. destruct I as [SCc _]. eapply facts_step_sound; eassumption. }
+    assert (J_nil : forall c, J [] c -> Jseg lv Fa c).
+    { intros c [pd [Epd Fh]]. rewrite app_nil_r in Epd. subst pd. exact Fh. }
+    assert (SxSafe : forall i, In i Sx -> ac_safe i = true).
+    { intros i Hi. unfold Sx in Hi. apply in_map_iff in Hi as [it [<- Hit]]. rewrite Forall_forall in HSx. exact (proj1 (HSx it Hit)). }
+    split.
+    - apply (seg_sim f f' nv lv env (N.of_nat b0) p (a :: Sx ++ [j]) (Sx ++ Xi) post J LV Hph Hphb Hbd Hob Hb0 Hb0' Bp Bpost J_init J_step).
+      + intros i c l0 c' Hi I. destruct Hi as [<-|Hi]; [destruct (istep_assert_inv lv env _ c l0 c' I) as [_ [E _]]; exact E|].
+        apply in_app_or in Hi as [Hi|[<-|[]]]; [exact (safe_label lv env i c l0 c' (SxSafe i Hi) I)|].
+        destruct (istep_assert_inv lv env _ c l0 c' I) as [_ [E _]]. exact E.
+      + intros i Hi. destruct Hi as [<-|Hi]; [reflexivity|]. apply in_app_or in Hi as [Hi|[<-|[]]]; [|reflexivity].
+        apply (safe_facts lv i (fun _ => 0) (SxSafe i Hi)).
+      + discriminate.
+      + intros c c' cn A O On Jc Jn Xe.
+        exact (P1_fwd lv env nv Fa ta tb P Q SxI m LV EV HSx Pb Pa2 BP BQ Bta Btb BSx Xi HXi c c' cn A O On (J_nil c Jc) (J_nil cn Jn) Xe).
+      + intros c cn o A O On Jc Jn Xe.
+        exact (P2_fwd lv env nv Fa ta tb P Q SxI m LV EV HSx Pb Pa2 BP BQ Bta Btb BSx Xi HXi c cn o A O On (J_nil c Jc) (J_nil cn Jn) Xe).
+      + exact C0.
+    - assert (Hphb' : forall b, forallb (inst_below nv) (leading_phis (nth_block f' b)) = true) by (intros b; rewrite Hph; apply Hphb).
+      assert (Hob' : forall b, b <> N.of_nat b0 -> forallb (inst_below nv) (body (nth_block f' b)) = true)
+        by (intros b Ne; rewrite (Hbd b Ne); apply Hob; exact Ne).
+      apply (seg_sim f' f nv lv env (N.of_nat b0) p (Sx ++ Xi) (a :: Sx ++ [j]) post J LV (fun b => eq_sym (Hph b)) Hphb'
+               (fun b Ne => eq_sym (Hbd b Ne)) Hob' Hb0' Hb0 Bp Bpost J_init J_step).
+      + intros i c l0 c' Hi I. apply in_app_or in Hi as [Hi|Hi]; [exact (safe_label lv env i c l0 c' (SxSafe i Hi) I)|].
+        destruct I as [_ [_ [_ [_ Lb]]]]. rewrite Lb.
+        destruct HXi as [[_ ->] | ->]; cbn in Hi.
+        * destruct Hi as [<-|[]]. rewrite silent_assert. reflexivity.
+        * destruct Hi as [<-|[<-|[<-|[]]]]; [| reflexivity | rewrite silent_assert; reflexivity].
+          destruct (pred_of Fa (OVar ta)); reflexivity || idtac.
+          unfold silent, determined, sem_fun. cbn [i_args i_outs i_op has_label existsb].
+          assert (LP : is_lab P = false) by (destruct P; [reflexivity | reflexivity | cbn in BP; discriminate BP || reflexivity]).
+          idtac. admit.
+      + admit.
+      + admit.
+      + intros x x' y A Ox Oy Jx Jy Xe.
+        exact (P1_bwd lv env nv Fa ta tb P Q SxI m LV EV HSx Pb Pa2 BP BQ Bta Btb BSx Xi HXi x x' y A Ox Oy (J_nil x Jx) (J_nil y Jy) Xe).
+      + intros x y o A Ox Oy Jx Jy Xe.
+        exact (P2_bwd lv env nv Fa ta tb P Q SxI m LV EV HSx Pb Pa2 BP BQ Bta Btb BSx Xi HXi x y o A Ox Oy (J_nil x Jx) (J_nil y Jy) Xe).
+      + exact C0.
+  Abort.
+End AcFunc.
